@@ -361,6 +361,7 @@ def run_impl(case):
         "M": np.array(net.constraint_matrix, dtype=float).tolist(), "names": list(net.constraint_index),
         "evs": [[ev.session_id, float(ev.requested_energy), float(ev.energy_delivered), float(ev.remaining_demand)] for ev in hist],
         "iteration": int(sim.iteration), "period": case["period"],
+        "M_dtype": str(np.asarray(net.constraint_matrix).dtype),
     }
     epoch = np.datetime64("1970-01-01T00:00:00.000000")
     naive = start.replace(tzinfo=None)
@@ -714,7 +715,16 @@ def oracle(case, obs):
             if len(idsq) != 3:
                 continue  # outside the documented domain (List of length 3)
             if "err" in a:
-                fails.append({"kind": "nema_raised", "detail": f"{where}: {a}"})
+                idle = [t for t in range(T) if all(abs(_phasor(cons, st, rate_of, p, t)) == 0 for p in idsq)]
+                if a["err"] == "ZeroDivision" and idle and raw.get("M_dtype") == "object":
+                    # F16: an object-dtype constraint matrix (jpl_acn: `Current([])` is an object Series)
+                    # turns numpy's 0/0 -> nan into Python's ZeroDivisionError for the WHOLE series
+                    fails.append({"kind": "nema_zero_division_object_matrix",
+                                  "detail": f"{where}: ZeroDivisionError because period(s) {idle[:5]} carry no current and "
+                                            f"constraint_matrix.dtype is object; other networks return nan there and "
+                                            f"the formula's value elsewhere"})
+                else:
+                    fails.append({"kind": "nema_raised", "detail": f"{where}: {a}"})
                 continue
             got = [I.num(x) for x in a["ok"]]
             if len(got) != T:
